@@ -33,6 +33,54 @@ struct C10Case {
     kmax: u64,
 }
 
+/// Histories of the output file: every ordered pair (A, B) of five commands run one after the
+/// other with the same --outfile; what B leaves behind must be what B writes to a fresh name.
+pub fn shared_outfile_histories(run: &mut Run) -> u64 {
+    let cmds: Vec<CliArgs> = vec![
+        CliArgs { group: "p2gg".into(), shape: vec!["trimer".into()], potential: Some("Hard".into()), replications: 2, opt: vec!["--steps".into(), "40".into(), "--inner-steps".into(), "20".into()] },
+        CliArgs { group: "p1".into(), shape: vec!["circle".into()], potential: Some("Hard".into()), replications: 1, opt: vec!["--steps".into(), "40".into(), "--inner-steps".into(), "20".into()] },
+        CliArgs { group: "p2".into(), shape: vec!["polygon".into(), "--sides".into(), "4".into()], potential: Some("Hard".into()), replications: 1, opt: vec!["--steps".into(), "40".into(), "--inner-steps".into(), "20".into()] },
+        CliArgs { group: "p1m1".into(), shape: vec!["trimer".into()], potential: Some("LJ".into()), replications: 1, opt: vec!["--steps".into(), "40".into(), "--inner-steps".into(), "20".into()] },
+        CliArgs { group: "p1".into(), shape: vec!["circle".into()], potential: Some("LJ".into()), replications: 1, opt: vec!["--steps".into(), "20".into(), "--inner-steps".into(), "20".into()] },
+    ];
+    let fresh: Vec<cli::CliResult> = par_map(&cmds, |_, c| cli::run_cli(&c.to_vec(), &[]));
+    let mut pairs: Vec<(usize, usize)> = vec![];
+    for a in 0..cmds.len() {
+        for b in 0..cmds.len() {
+            pairs.push((a, b));
+        }
+    }
+    let shared = par_map(&pairs, |_, &(a, b)| {
+        let out = cli::fresh_out();
+        let first = cli::run_cli_at(out.clone(), &cmds[a].to_vec(), &[], false);
+        let second = cli::run_cli_at(out, &cmds[b].to_vec(), &[], true);
+        (first.status, second)
+    });
+    let mut shared_n = 0u64;
+    for (i, (st1, second)) in shared.into_iter().enumerate() {
+        let (a, b) = pairs[i];
+        shared_n += 1;
+        let case = json!({"engine": "cli-pair", "first": cmds[a].json(), "second": cmds[b].json()});
+        if st1 != Some(0) || fresh[b].status != Some(0) {
+            run.fail(None, &format!("exit status {:?} / {:?} of runs that must succeed", st1, fresh[b].status), case);
+            continue;
+        }
+        if second.status != Some(0) {
+            run.fail(None, &format!("a run whose --outfile already exists ends with status {:?}: {}", second.status, second.stderr.chars().take(200).collect::<String>()), case);
+            continue;
+        }
+        if second.json != fresh[b].json {
+            let parses = second.json.as_ref().map(|t| serde_json::from_str::<Value>(t).is_ok()).unwrap_or(false);
+            run.fail(None, &format!("run over an existing --outfile (left by another run): the .json is not what the same command writes to a fresh name ({} vs {} bytes, parses: {})", second.json.as_ref().map(|t| t.len()).unwrap_or(0), fresh[b].json.as_ref().map(|t| t.len()).unwrap_or(0), parses), case.clone());
+        }
+        if second.svg != fresh[b].svg {
+            run.fail(None, "run over an existing --outfile (left by another run): the .svg is not what the same command writes to a fresh name", case);
+        }
+    }
+    run.set("ordered_command_pairs_sharing_an_outfile", shared_n);
+    shared_n
+}
+
 pub fn c10(tier: Tier) -> ! {
     let mut run = Run::new("C10", tier, "exploration");
     let groups = GROUP_NAMES;
@@ -189,50 +237,45 @@ pub fn c10(tier: Tier) -> ! {
             run.sample(json!({"group": cases[i].group, "shape": cases[i].shape_args, "potential": cases[i].potential, "replications": format!("1..{}", cases[i].kmax)}));
         }
     }
-    // histories of the output file: every ordered pair (A, B) of five commands run one after the
-    // other with the same --outfile; what B leaves behind must be what B writes to a fresh name
-    let cmds: Vec<CliArgs> = vec![
-        CliArgs { group: "p2gg".into(), shape: vec!["trimer".into()], potential: Some("Hard".into()), replications: 2, opt: vec!["--steps".into(), "40".into(), "--inner-steps".into(), "20".into()] },
-        CliArgs { group: "p1".into(), shape: vec!["circle".into()], potential: Some("Hard".into()), replications: 1, opt: vec!["--steps".into(), "40".into(), "--inner-steps".into(), "20".into()] },
-        CliArgs { group: "p2".into(), shape: vec!["polygon".into(), "--sides".into(), "4".into()], potential: Some("Hard".into()), replications: 1, opt: vec!["--steps".into(), "40".into(), "--inner-steps".into(), "20".into()] },
-        CliArgs { group: "p1m1".into(), shape: vec!["trimer".into()], potential: Some("LJ".into()), replications: 1, opt: vec!["--steps".into(), "40".into(), "--inner-steps".into(), "20".into()] },
-        CliArgs { group: "p1".into(), shape: vec!["circle".into()], potential: Some("LJ".into()), replications: 1, opt: vec!["--steps".into(), "20".into(), "--inner-steps".into(), "20".into()] },
-    ];
-    let fresh: Vec<cli::CliResult> = par_map(&cmds, |_, c| cli::run_cli(&c.to_vec(), &[]));
-    let mut pairs: Vec<(usize, usize)> = vec![];
-    for a in 0..cmds.len() {
-        for b in 0..cmds.len() {
-            pairs.push((a, b));
-        }
-    }
-    let shared = par_map(&pairs, |_, &(a, b)| {
+    let shared_n = shared_outfile_histories(&mut run);
+    // the private pipeline in-process on a recording state: which replica is written when the
+    // replicas' scores agree to 0, 6, 9 or 13 digits
+    let (pipes, pipes_ok) = crate::pipe::best_replica_is_written(&mut run, tier);
+    run.set("in_process_pipelines_on_a_recording_state", pipes);
+    run.set("in_process_pipelines_interpretable", pipes_ok);
+    // --start-config: whatever the file holds, the written structure is labelled with what was asked for
+    let mut start_cfg_runs = 0u64;
+    {
+        let first = CliArgs { group: "p2".into(), shape: vec!["polygon".into(), "--sides".into(), "4".into()], potential: Some("Hard".into()), replications: 1, opt: vec!["--steps".into(), "40".into(), "--inner-steps".into(), "20".into()] };
         let out = cli::fresh_out();
-        let first = cli::run_cli_at(out.clone(), &cmds[a].to_vec(), &[], false);
-        let second = cli::run_cli_at(out, &cmds[b].to_vec(), &[], true);
-        (first.status, second)
-    });
-    let mut shared_n = 0u64;
-    for (i, (st1, second)) in shared.into_iter().enumerate() {
-        let (a, b) = pairs[i];
-        shared_n += 1;
-        let case = json!({"engine": "cli-pair", "first": cmds[a].json(), "second": cmds[b].json()});
-        if st1 != Some(0) || fresh[b].status != Some(0) {
-            run.fail(None, &format!("exit status {:?} / {:?} of runs that must succeed", st1, fresh[b].status), case);
-            continue;
+        let r1 = cli::run_cli_at(out.clone(), &first.to_vec(), &[], false);
+        let file = out.with_extension("json");
+        if r1.status == Some(0) && file.exists() {
+            for (g, shape, spec) in [("p1g1", vec!["polygon", "--sides", "4"], ShapeSpec::Polygon(4)), ("p2", vec!["polygon", "--sides", "5"], ShapeSpec::Polygon(5)), ("p1m1", vec!["circle"], ShapeSpec::Circle)].iter() {
+                let mut opt: Vec<String> = vec!["--steps".into(), "40".into(), "--inner-steps".into(), "20".into(), "--start-config".into()];
+                opt.push(file.to_string_lossy().to_string());
+                let args = CliArgs { group: g.to_string(), shape: shape.iter().map(|s| s.to_string()).collect(), potential: Some("Hard".into()), replications: 1, opt };
+                let r = cli::run_cli(&args.to_vec(), &[]);
+                start_cfg_runs += 1;
+                // (a tool that refuses the combination with an error message is within the property)
+                if r.status != Some(0) {
+                    continue;
+                }
+                if let Some(Ok(doc)) = r.json.as_ref().map(|t| serde_json::from_str::<Value>(t)) {
+                    let name = doc["wallpaper"]["name"].as_str().unwrap_or("");
+                    let fam = doc["wallpaper"]["family"].as_str().unwrap_or("");
+                    if name != *g || fam != ita_family(g) || !values_close(&doc["shape"], &spec.json(), 1e-12) {
+                        run.fail(None, &format!("asked for {} {} with a --start-config file of another structure: the written structure is labelled {:?} / {:?} and holds {}", g, spec.label(), name, fam, if values_close(&doc["shape"], &spec.json(), 1e-12) { "the requested shape" } else { "another shape" }), args.json());
+                    }
+                } else {
+                    run.fail(None, "status 0 but no readable .json", args.json());
+                }
+            }
         }
-        if second.status != Some(0) {
-            run.fail(None, &format!("a run whose --outfile already exists ends with status {:?}: {}", second.status, second.stderr.chars().take(200).collect::<String>()), case);
-            continue;
-        }
-        if second.json != fresh[b].json {
-            let parses = second.json.as_ref().map(|t| serde_json::from_str::<Value>(t).is_ok()).unwrap_or(false);
-            run.fail(None, &format!("run over an existing --outfile (left by another run): the .json is not what the same command writes to a fresh name ({} vs {} bytes, parses: {})", second.json.as_ref().map(|t| t.len()).unwrap_or(0), fresh[b].json.as_ref().map(|t| t.len()).unwrap_or(0), parses), case.clone());
-        }
-        if second.svg != fresh[b].svg {
-            run.fail(None, "run over an existing --outfile (left by another run): the .svg is not what the same command writes to a fresh name", case);
-        }
+        let _ = std::fs::remove_file(out.with_extension("json"));
+        let _ = std::fs::remove_file(out.with_extension("svg"));
     }
-    run.set("ordered_command_pairs_sharing_an_outfile", shared_n);
+    run.set("runs_with_a_start_config_of_another_structure", start_cfg_runs);
     cli::cleanup();
     run.set("evaluations", runs + shared_n);
     run.set("distinct_nontrivial", written);
@@ -816,6 +859,9 @@ pub fn c11(tier: Tier) -> ! {
             (s, _, _) => run.fail(None, &format!("binary failed: {:?}", s), case),
         }
     }
+    // (what a run leaves in an --outfile that already exists reads back as its result)
+    let shared_pairs = shared_outfile_histories(&mut run);
+    run.set("ordered_command_pairs_sharing_an_outfile", shared_pairs);
     cli::cleanup();
     run.set("structures", sn);
     run.set("structures_roundtrip_exact", sok);
